@@ -55,6 +55,7 @@ func storeValue(id string) []byte {
 		storeVals["big"] = prbytes("big-value", 20000) // larger than any buffered-writer default (C11: still exactly one write)
 		storeVals["b4093"] = prbytes("b4093", 4093)
 		storeVals["huge"] = prbytes("huge-value", 70000) // more than 64 KiB
+		storeVals["lo1"] = simpleOption("Verif Boot Entry") // a well-formed load option (value of a Boot#### variable)
 		storeVals["zlead"] = []byte{0, 0, 0, 0, 0, 0, 0, 1, 2, 3} // a value that begins with zero bytes (they are part of the value)
 		storeVals["d2"] = mk([3]string{"sha256", "o2", "h2"}, [3]string{"sha256", "o1", "h2"})
 	}
